@@ -37,6 +37,10 @@ func init() {
 			"\tcase StateClosedByUs, StateHandshake:\n\t\tcallback(sonicerrors.ErrCancelled)\n\tdefault:\n\t\tcallback(io.EOF)\n\t}\n}\n\n// Close sends", "\tcase StateClosedByUs, StateHandshake:\n\t\tcallback(sonicerrors.ErrCancelled)\n\tdefault:\n\t}\n}\n\n// Close sends", "C17-R2"},
 		mutant{"frame released before the write completes", "codec/websocket/stream.go",
 			"\t\ts.codecConn.AsyncWriteNext(*sent, func(err error, _ int) {\n\t\t\ts.releaseFrame(sent)\n", "\t\ts.releaseFrame(sent)\n\t\ts.codecConn.AsyncWriteNext(*sent, func(err error, _ int) {\n", "C17-R3"},
+		mutant{"AsyncWriteFrame releases the frame it queued", "codec/websocket/stream.go",
+			"\tif s.state == StateActive {\n\t\ts.prepareWrite(f)\n\t\ts.AsyncFlush(callback)\n\t} else {", "\tif s.state == StateActive {\n\t\ts.prepareWrite(f)\n\t\ts.AsyncFlush(func(err error) {\n\t\t\ts.releaseFrame(f)\n\t\t\tcallback(err)\n\t\t})\n\t} else {", "C17-R3"},
+		mutant{"AsyncClose flushes in ClosedByPeer", "codec/websocket/stream.go",
+			"\tcase StateClosedByUs, StateHandshake:\n\t\tcallback(sonicerrors.ErrCancelled)\n\tdefault:\n\t\tcallback(io.EOF)\n\t}\n}\n\n// Close sends", "\tcase StateClosedByUs, StateHandshake:\n\t\tcallback(sonicerrors.ErrCancelled)\n\tcase StateClosedByPeer:\n\t\ts.AsyncFlush(func(error) {\n\t\t\tcallback(io.EOF)\n\t\t})\n\tdefault:\n\t\tcallback(io.EOF)\n\t}\n}\n\n// Close sends", "C17-R1"},
 		mutant{"frame dequeued only when its write completed", "codec/websocket/stream.go",
 			"\t\tsent := s.pendingFrames[0]\n\t\ts.pendingFrames = s.pendingFrames[1:]\n\n\t\ts.codecConn.AsyncWriteNext(*sent, func(err error, _ int) {\n\t\t\ts.releaseFrame(sent)\n",
 			"\t\tsent := s.pendingFrames[0]\n\n\t\ts.codecConn.AsyncWriteNext(*sent, func(err error, _ int) {\n\t\t\ts.pendingFrames = s.pendingFrames[1:]\n\t\t\ts.releaseFrame(sent)\n", "C17-R3"},
@@ -120,6 +124,17 @@ func runC17(c *Ctx) {
 			default:
 				c.ok(s.fn, "AsyncFlush", s.call.Pos(), "write family")
 			}
+			// an application operation starts a flush for what it has just queued, not otherwise: a flush started in a state
+			// in which the operation queues nothing can only run into a write that is already in flight
+			if s.fam == "write" && !guarded {
+				queued := false
+				eachInstr(s.fn, func(in ssa.Instruction) {
+					if dominatesInstr(in, s.call.(ssa.Instruction)) && doesDeep(in, func(x ssa.Instruction) bool { return isCallToFn(x, w.prepareWrite, w.prepareClose) }) {
+						queued = true
+					}
+				})
+				c.check(queued, s.fn, "flush what was queued", s.call.Pos(), "the flush follows the queuing of this operation's frame", "an application call starts a transport flush without having queued a frame itself (for example Close in a state in which it only reports end-of-stream): the extra flush overlaps an application write that is still in flight, re-initialises the single write reactor and that write's callback is never invoked")
+			}
 		}
 	}
 
@@ -132,7 +147,7 @@ func runC17(c *Ctx) {
 	// closures that are themselves completions (handed to lower layers) are covered through the summaries above.
 
 	// ------------------------------------------------------------------------------------------------ R3
-	c.rule("C17-R3", "the completion of a transport write releases the frame, continues the flush only on success and reports the error otherwise", 3)
+	c.rule("C17-R3", "the completion of a transport write releases the frame, continues the flush only on success and reports the error otherwise; queued frames are released by the flush only", 6)
 	{
 		release := p.Method(ws, "Stream", "releaseFrame")
 		for _, call := range callsByName(w.asyncFlush, "AsyncWriteNext") {
@@ -155,6 +170,7 @@ func runC17(c *Ctx) {
 					}
 				}
 			}
+			_ = 0
 			c.check(popped, w.asyncFlush, "dequeue before write", in.Pos(), "the frame is removed from the pending queue before its transport write starts", "the frame stays in the pending queue while its transport write is in flight: a read (which flushes first) or another write started before the completion re-encodes and sends the same frame again and overwrites the first write's continuation")
 			for _, a := range call.Common().Args {
 				mc, ok := strip(a).(*ssa.MakeClosure)
@@ -172,6 +188,65 @@ func runC17(c *Ctx) {
 				}
 				c.check(rel && cont, cf, "write completion", cf.Pos(), "releases the frame and continues only on success", "the completion of the transport write does not release the frame / continue the flush under err == nil")
 			}
+		}
+	}
+	// a frame handed to the queue belongs to the flush, which releases it exactly once: nobody who queued a frame releases
+	// it as well (a frame released twice is handed out twice by the pool and two queued frames become one object)
+	{
+		release := p.Method(ws, "Stream", "releaseFrame")
+		sameFrame := func(a, b ssa.Value) bool {
+			ra, rb := resolveCell(strip(a)), resolveCell(strip(b))
+			if ra == rb {
+				return true
+			}
+			// a captured parameter inside a closure: compare with the binding in the parent
+			if fv, ok := strip(a).(*ssa.FreeVar); ok {
+				if bnd := bindingOf(fv.Parent(), fv); bnd != nil && resolveCell(strip(bnd)) == rb {
+					return true
+				}
+			}
+			if u, ok := strip(a).(*ssa.UnOp); ok {
+				if fv, ok := u.X.(*ssa.FreeVar); ok {
+					if bnd := bindingOf(fv.Parent(), fv); bnd != nil {
+						if cell := cellOf(bnd); cell != nil {
+							if st := singleStore(cell); st != nil && resolveCell(strip(st.Val)) == rb {
+								return true
+							}
+						}
+					}
+				}
+			}
+			return false
+		}
+		n := 0
+		for _, top := range wsFuncs(p) {
+			if top.Parent() != nil {
+				continue
+			}
+			for _, pc := range callsToFn(top, w.prepareWrite) {
+				n++
+				queuedArg := pc.Common().Args[1]
+				bad := ""
+				var pos token.Pos = pc.Pos()
+				for _, f := range withClosures(top) {
+					for _, rc := range callsToFn(f, release) {
+						if !sameFrame(rc.Common().Args[1], queuedArg) {
+							continue
+						}
+						if f == top {
+							if reachesFrom(pc.(ssa.Instruction), rc.(ssa.Instruction)) {
+								bad, pos = "released after it was queued", rc.Pos()
+							}
+						} else {
+							bad, pos = "released by a completion created in "+fnName(top), rc.Pos()
+						}
+					}
+				}
+				c.check(bad == "", top, "queued frame released once", pos, "the frame queued here is released by the flush only", "a frame that was handed to the pending queue is released again by its submitter ("+bad+"): the pool hands the same frame out twice, a later Pong/Close and an application frame become one object and overwrite each other on the wire")
+			}
+		}
+		if n == 0 {
+			c.bad(w.asyncFlush, "queued frame released once", w.asyncFlush.Pos(), "no frame is ever queued (anchor moved)")
 		}
 	}
 	_ = token.ADD
